@@ -174,6 +174,10 @@ def execute(cases, tier):
                               "spec": "contradicts L1: the library's run_parallel created %s databases, dropped %s, closed %s of %s sessions" % (
                                   lib.get("creates"), lib.get("drops"), lib.get("shutdowns"), lib.get("connects")),
                               "broken": "corr_C17_library", "known": "D10"})
+    if lib.get("dbvar_mismatches") or lib.get("dbvar_seen", 0) < 3:
+        disagreements.append({"case": {"family": "parlib", "part": "database variable"}, "impl": lib, "model": "$__DATABASE__ = the database of the connection the SQL is sent on",
+                              "spec": "contradicts L1 (exclusive use): under the library's run_parallel `$__DATABASE__` expanded to another database than the file's own: %r (statements seen: %s)" % (
+                                  lib.get("dbvar_mismatches"), lib.get("dbvar_seen")), "broken": "corr_C17_library"})
     stats = {"evaluations": len(cases) + 1, "model_evaluations": len(mcases), "distinct_nontrivial": len(keys), "rule": RULE,
              "categories": dict(sorted(cats.items())), "vm_compute_crosschecked": vm_n,
              "samples": [{"files": [f[0] for f in c["files"]], "jobs": c["jobs"], "keep": c["keep"], "trace_head": rows[i][2][:12]} for i, c in enumerate(cases[:2])],
